@@ -195,7 +195,7 @@ CliReserve(r) ==
 
 \* ... then emit request_message{size,data} or more_request_data
 CliEmit(r) ==
-  /\ cs[r].snd = "res"
+  /\ cs[r].snd = "res" /\ cli.up
   /\ LET c == cs[r]
          f == Frame(c.id, IF c.sfirst THEN "msg" ELSE "more", IF c.sfirst THEN c.ssize ELSE 0, c.sres, 0, 0,
                     <<r, "c", c.nsent - 1>>)
@@ -204,6 +204,14 @@ CliEmit(r) ==
                              !.snd = IF c.sleft - c.sres = 0 THEN "done" ELSE "need"])
         /\ OWireSend(EvWire("wire.send", "c2s", f))
   /\ UNCHANGED <<s2c, car, cli, srv, ss, app, nf>>
+
+\* ... the channel is closed (CloseSend was called / the stream's context ended): the carrier refuses the frame
+CliEmitFail(r) ==
+  /\ cs[r].snd = "res" /\ ~cli.up
+  /\ SetC(r, [cs[r] EXCEPT !.snd = "idle", !.sfailed = TRUE, !.sres = 0])
+  /\ CDoneOp(r)
+  /\ OOpRet(EvOpRet("c", r, "send", "err", 1, cs[r].nsent - 1))
+  /\ UNCHANGED <<c2s, s2c, car, cli, srv, ss, nf>>
 
 \* ... window exhausted and the stream's context is done: give up
 CliSendAbort(r) ==
@@ -222,14 +230,14 @@ CliSendRet(r) ==
 
 \* CloseSend (:646-667): refused once the stream is done or already half-closed
 CliHalf(r) ==
-  /\ CBusy(r) = "half" /\ ~cs[r].published /\ ~cs[r].half
+  /\ CBusy(r) = "half" /\ ~cs[r].published /\ ~cs[r].half /\ cli.up
   /\ c2s' = Append(c2s, Frame(cs[r].id, "half", 0, 0, 0, 0, NoMid))
   /\ SetC(r, [cs[r] EXCEPT !.half = TRUE])
   /\ OWireSend(EvWire("wire.send", "c2s", Frame(cs[r].id, "half", 0, 0, 0, 0, NoMid)))
   /\ UNCHANGED <<s2c, car, cli, srv, ss, app, nf>>
 
 CliHalfRet(r) ==
-  /\ CBusy(r) = "half" /\ (cs[r].half \/ cs[r].published)
+  /\ CBusy(r) = "half" /\ (cs[r].half \/ cs[r].published \/ ~cli.up)
   /\ CDoneOp(r)
   /\ OOpRet(EvOpRet("c", r, "half", IF cs[r].half THEN "ok" ELSE "err", IF cs[r].half THEN 0 ELSE -1, 0))
   /\ UNCHANGED <<c2s, s2c, car, cli, cs, srv, ss, nf>>
@@ -251,7 +259,7 @@ CliDequeue(r) ==
 \* ... then, with the lock released, send the window update unless the stream is done (:443-454)
 CliCredit(r) ==
   /\ cs[r].credit > 0
-  /\ IF cs[r].done # ""
+  /\ IF cs[r].done # "" \/ ~cli.up
      THEN /\ OSkip /\ UNCHANGED c2s
      ELSE /\ c2s' = Append(c2s, Frame(cs[r].id, "wu", 0, cs[r].credit, 0, 0, NoMid))
           /\ OWireSend(EvWire("wire.send", "c2s", Frame(cs[r].id, "wu", 0, cs[r].credit, 0, 0, NoMid)))
@@ -694,6 +702,7 @@ Next ==
   \/ \E r \in RPCs : CliNewFail(r)
   \/ \E r \in RPCs : CliReserve(r)
   \/ \E r \in RPCs : CliEmit(r)
+  \/ \E r \in RPCs : CliEmitFail(r)
   \/ \E r \in RPCs : CliSendAbort(r)
   \/ \E r \in RPCs : CliSendRet(r)
   \/ \E r \in RPCs : CliHalf(r)
